@@ -275,6 +275,7 @@ func c11Shape(seed *models.Item) string {
 func (e *c11Exec) preprocess(seed *models.Item) bool {
 	depth := seed.GetMaxDepth()
 	items, _ := seed.GetNodesAtLevel(depth)
+	var rejected []*models.Item
 	for _, it := range items {
 		if it.GetStatus() != models.ItemFresh {
 			e.fail("stage-panic/non-fresh-at-max-depth", "preprocessor would panic: item %s at max depth has status %s\n%s", it.GetID(), it.GetStatus(), c11Draw(seed))
@@ -294,8 +295,39 @@ func (e *c11Exec) preprocess(seed *models.Item) bool {
 			continue
 		}
 		if e.unlikely(4) {
-			it.GetParent().RemoveChild(it)
+			rejected = append(rejected, it)
 			e.logf("pre remove %s", it.GetID())
+		}
+	}
+	// rejected children are dropped while walking each parent's children (GetChildren hands out a snapshot,
+	// so removing during the walk is legitimate); afterwards none of them may still be in the tree
+	if len(rejected) > 0 {
+		rej := map[*models.Item]bool{}
+		var parents []*models.Item
+		seenParent := map[*models.Item]bool{}
+		for _, it := range rejected {
+			rej[it] = true
+			if p := it.GetParent(); !seenParent[p] {
+				seenParent[p] = true
+				parents = append(parents, p)
+			}
+		}
+		for _, p := range parents {
+			for _, c := range p.GetChildren() {
+				if rej[c] {
+					p.RemoveChild(c)
+				}
+			}
+		}
+		left := ""
+		seed.Traverse(func(it *models.Item) {
+			if rej[it] {
+				left += " " + it.GetID()
+			}
+		})
+		if left != "" {
+			e.fail("removed-child-still-in-tree", "children%s were removed while walking GetChildren() of their parent and are still in the tree\n%s\ntrace: %v", left, c11Draw(seed), e.trace)
+			return true
 		}
 	}
 	before := nonSeedURLs(seed)
